@@ -1,9 +1,12 @@
 package p_map
 
 import (
+	"encoding/json"
 	"fmt"
 	"os"
+	"path/filepath"
 	"runtime"
+	"runtime/debug"
 	"strings"
 	"sync/atomic"
 	"testing"
@@ -305,6 +308,170 @@ func TestC10Rapid(t *testing.T) {
 	})
 }
 
+// ---------------------------------------------------------------------------------------------
+// the many-iterators family: numbers of simultaneously open iterators around the word sizes of a counter, and long
+// runs of removed entries each pinned by its own iterator. Same Case type, same Run, same model; the cases allow more
+// than ManyIts open iterators, for which Run keeps its books per position instead of scanning the iterator list.
+
+// genMutations: 1..8 mutations (and a few iterator calls) on a map with many parked iterators; the first one is the
+// removal of an entry under an iterator, the defining mutation of the family.
+func genMutations(t *rapid.T, keys, maxIt, opened int) []Op {
+	key := rapid.IntRange(0, keys-1)
+	slot := rapid.OneOf(rapid.IntRange(0, maxIt-1), rapid.IntRange(0, 2*keys+1),
+		rapid.Map(rapid.IntRange(0, 3), func(d int) int { return max(0, opened-1-d) }))
+	mut := rapid.Custom(func(t *rapid.T) Op {
+		switch k := rapid.IntRange(0, 15).Draw(t, "kind"); {
+		case k <= 3:
+			return Op{K: OpRemAt, I: slot.Draw(t, "i")}
+		case k <= 5:
+			return Op{K: OpRem, Key: key.Draw(t, "key")}
+		case k <= 7:
+			return Op{K: OpAdd, Key: key.Draw(t, "key"), V: rapid.IntRange(0, 9).Draw(t, "v")}
+		case k == 8:
+			return Op{K: OpIter}
+		case k == 9:
+			return Op{K: OpClose, I: slot.Draw(t, "i")}
+		case k == 10:
+			return Op{K: OpNext, I: slot.Draw(t, "i")}
+		case k == 11:
+			return Op{K: OpHas, I: slot.Draw(t, "i")}
+		case k == 12:
+			return Op{K: OpRemRange, Key: key.Draw(t, "key"), N: rapid.IntRange(0, keys).Draw(t, "n"), Rev: rapid.Bool().Draw(t, "rev")}
+		case k == 13:
+			return Op{K: OpAddRange, Key: key.Draw(t, "key"), N: rapid.IntRange(0, keys).Draw(t, "n"), Rev: rapid.Bool().Draw(t, "rev"), V: rapid.IntRange(0, 9).Draw(t, "v")}
+		case k == 14:
+			return Op{K: OpFirst}
+		default:
+			return Op{K: OpScan}
+		}
+	})
+	ops := []Op{{K: OpRemAt, I: slot.Draw(t, "under")}}
+	return append(ops, rapid.SliceOfN(mut, 0, 7).Draw(t, "mutations")...)
+}
+
+// genReadOut: every open iterator is driven to the end (each Next judged by the model); optionally an entry is added
+// afterwards and they are driven again (they must see it); optionally they are closed by the list, else by Run's epilogue.
+func genReadOut(t *rapid.T, keys int) []Op {
+	ops := []Op{{K: OpAdvAll, N: keys + 1}}
+	if rapid.Bool().Draw(t, "addafter") {
+		ops = append(ops, Op{K: OpAdd, Key: rapid.IntRange(0, keys-1).Draw(t, "key"), V: 1}, Op{K: OpAdvAll, N: 2})
+	}
+	if rapid.Bool().Draw(t, "closeall") {
+		ops = append(ops, Op{K: OpCloseAll, Rev: rapid.Bool().Draw(t, "rev")})
+	}
+	return ops
+}
+
+// genWordCounts: B-1, B, B+1 open iterators (B = 2^8, 2^9 and - one case in bigEvery - 2^16, 2^17) on a map of 2..8 keys,
+// spread over the positions by one stagger op, then the mutations and the read-out.
+func genWordCounts(t *rapid.T, bigEvery int) Case {
+	keys := rapid.SampledFrom([]int{2, 3, 4, 8}).Draw(t, "keys")
+	base := rapid.SampledFrom([]int{256, 256, 512}).Draw(t, "base")
+	if rapid.IntRange(1, bigEvery).Draw(t, "sizeclass") == bigEvery {
+		base = rapid.SampledFrom([]int{65536, 65536, 131072}).Draw(t, "bigbase")
+	}
+	n := base + rapid.SampledFrom([]int{0, -1, 0, 1}).Draw(t, "delta")
+	maxIt := n + rapid.IntRange(0, 2).Draw(t, "slack")
+	opened := rapid.OneOf(rapid.Just(n), rapid.Just(n), rapid.IntRange(n-2, maxIt)).Draw(t, "opened")
+	ops := []Op{{K: OpAddRange, Key: rapid.IntRange(0, keys-1).Draw(t, "from"), N: rapid.OneOf(rapid.IntRange(keys-1, keys), rapid.IntRange(0, keys)).Draw(t, "fill"), V: 3}}
+	ops = append(ops, Op{K: OpIters, N: opened})
+	if rapid.IntRange(0, 3).Draw(t, "staggered") != 0 {
+		ops = append(ops, Op{K: OpStagger, I: rapid.IntRange(0, keys).Draw(t, "offset"), N: rapid.IntRange(0, keys).Draw(t, "spread")})
+	}
+	ops = append(ops, genMutations(t, keys, maxIt, opened)...)
+	ops = append(ops, genReadOut(t, keys)...)
+	return Case{Keys: keys, MaxIt: maxIt, Ops: ops}
+}
+
+// genPinnedRun: a run of lo..hi consecutive removed entries each pinned by its own iterator (one pinrun op; the key is
+// re-added every round, a key alphabet of 2..8 is enough), on a map that is empty or holds a few entries before and
+// after the run, then mutations and a read-out: the first iterators have to step over the whole run in one call.
+func genPinnedRun(t *rapid.T, lo, hi int) Case {
+	keys := rapid.SampledFrom([]int{2, 3, 8}).Draw(t, "keys")
+	n := rapid.IntRange(lo, hi).Draw(t, "run")
+	maxIt := n + rapid.IntRange(0, 2).Draw(t, "slack")
+	k := rapid.IntRange(0, keys-1).Draw(t, "key")
+	var ops []Op
+	if rapid.IntRange(0, 2).Draw(t, "before") == 0 { // a few live entries in front of the run (never the run's key)
+		ops = append(ops, Op{K: OpAddRange, Key: k + 1, N: rapid.IntRange(1, keys-1).Draw(t, "nbefore"), V: 3})
+	}
+	ops = append(ops, Op{K: OpPinRun, Key: k, N: n, V: 5})
+	switch rapid.IntRange(0, 3).Draw(t, "then") {
+	case 0:
+		ops = append(ops, Op{K: OpFirst})
+	case 1:
+		ops = append(ops, Op{K: OpAdd, Key: k, V: 7}, Op{K: OpScan})
+	case 2:
+		ops = append(ops, genMutations(t, keys, maxIt, n)...)
+	}
+	if rapid.IntRange(0, 3).Draw(t, "readout") != 0 {
+		ops = append(ops, genReadOut(t, keys)...)
+	}
+	return Case{Keys: keys, MaxIt: maxIt, Ops: ops}
+}
+
+func TestC10ManyIterators(t *testing.T) {
+	running(propC10, "TestC10ManyIterators")
+	st := vstat.For(propC10)
+	rapid.Check(t, func(t *rapid.T) {
+		var c Case
+		if rapid.IntRange(0, 3).Draw(t, "family") == 0 {
+			c = genPinnedRun(t, 65, vstat.Pick(1500, 4000))
+		} else {
+			c = genWordCounts(t, 2)
+		}
+		info, v := Run(c, false)
+		st.Report(t, "TestC10ManyIterators", c, v)
+		record(propC10, c, info)
+	})
+}
+
+// lowStack is the goroutine stack limit of TestC10LowStack (runtime/debug.SetMaxStack; the default is 1 GB). The
+// harness itself needs a few KB.
+const lowStack = 256 << 10
+
+// TestC10LowStack: "never panics for every history" includes a history with a long run of pinned removed entries, and
+// a call whose stack use grows with the length of that run dies with a fatal, unrecoverable stack overflow once the
+// run is long enough for the stack limit of the process. With the default limit that needs 10^7 entries; an application
+// may lower the limit, and so does this test - in a process of its own (the limit is process wide) - so that runs of
+// 10^4 entries decide. The unchanged map steps over such a run in a loop: its stack use does not depend on the run.
+// A stack overflow kills the process (the driver reports process-crash); the case in flight is kept as a replay file.
+func TestC10LowStack(t *testing.T) {
+	running(propC10, "TestC10LowStack")
+	st := vstat.For(propC10)
+	defer debug.SetMaxStack(debug.SetMaxStack(lowStack))
+	rapid.Check(t, func(t *rapid.T) {
+		c := genPinnedRun(t, vstat.Pick(8000, 10000), vstat.Pick(12000, 30000))
+		drop := inFlightFile("TestC10LowStack", c)
+		info, v := Run(c, false)
+		drop()
+		st.Report(t, "TestC10LowStack", c, v)
+		record(propC10, c, info)
+	})
+}
+
+// inFlightFile writes the case as a replay file before it runs and returns the function that removes the file again:
+// it is left behind only by a case that killed the process.
+func inFlightFile(test string, c Case) (drop func()) {
+	if vstat.ReplayPath() != "" {
+		return func() {}
+	}
+	dir := os.Getenv("VERIF_REPLAY_DIR")
+	if dir == "" {
+		dir = "/verif/replays"
+	}
+	dir = filepath.Join(dir, propC10)
+	os.MkdirAll(dir, 0o755)
+	raw, _ := json.Marshal(c)
+	b, _ := json.MarshalIndent(vstat.Envelope{Property: propC10, Test: test, Seed: os.Getenv("VERIF_SHARDSEED"), Sig: "process-crash",
+		Msg: "this case was in flight when the test process died", Case: raw}, "", " ")
+	path := filepath.Join(dir, fmt.Sprintf("%s-inflight-seed%s.json", test, os.Getenv("VERIF_SHARDSEED")))
+	if os.WriteFile(path, b, 0o644) != nil {
+		return func() {}
+	}
+	return func() { os.Remove(path) }
+}
+
 func TestC11MapRapid(t *testing.T) {
 	hookOrSkip(t)
 	running(propC11, "TestC11MapRapid")
@@ -341,6 +508,9 @@ func TestReplay(t *testing.T) {
 		prop = propC11
 	}
 	running(prop, "TestReplay")
+	if strings.HasPrefix(env.Test, "TestC10LowStack") {
+		defer debug.SetMaxStack(debug.SetMaxStack(lowStack))
+	}
 	info, v := Run(c, structural)
 	if structural && info.NoHook {
 		t.Fatalf("%s is a C11 case but (*iterable.Map).VerifWalk is not compiled in: cannot replay it", p)
